@@ -388,7 +388,7 @@ sgsitrf(superlu_options_t *options, SuperMatrix *A, int relax, int panel_size,
 	    /* Determine the union of the row structure of the snode */
 	    if ( (*info = ilu_ssnode_dfs(jcol, kcol, asub, xa_begin, xa_end,
 					 marker, Glu)) != 0 )
-		return;
+		goto cleanup;
 
 	    nextu    = xusub[jcol];
 	    nextlu   = xlusup[jcol];
@@ -398,7 +398,7 @@ sgsitrf(superlu_options_t *options, SuperMatrix *A, int relax, int panel_size,
 	    nzlumax = Glu->nzlumax;
 	    while ( new_next > nzlumax ) {
 		if ((*info = sLUMemXpand(jcol, nextlu, LUSUP, &nzlumax, Glu)))
-		    return;
+		    goto cleanup;
 	    }
 
 	    for (icol = jcol; icol <= kcol; icol++) {
@@ -473,12 +473,12 @@ sgsitrf(superlu_options_t *options, SuperMatrix *A, int relax, int panel_size,
 		if ((*info = ilu_scolumn_dfs(m, jj, perm_r, &nseg,
 					     &panel_lsub[k], segrep, &repfnz[k],
 					     marker, parent, xplore, Glu)))
-		    return;
+		    goto cleanup;
 
 		/* Numeric updates */
 		if ((*info = scolumn_bmod(jj, (nseg - nseg1), &dense[k],
 					  tempv, &segrep[nseg1], &repfnz[k],
-					  jcol, Glu, stat)) != 0) return;
+					  jcol, Glu, stat)) != 0) goto cleanup;
 
 		/* Make a fill-in position if the column is entirely zero */
 		if (xlsub[jj + 1] == xlsub[jj]) {
@@ -492,7 +492,7 @@ sgsitrf(superlu_options_t *options, SuperMatrix *A, int relax, int panel_size,
 		    nextl = xlsub[jj] + 1;
 		    if (nextl >= nzlmax) {
 			int error = sLUMemXpand(jj, nextl, LSUB, &nzlmax, Glu);
-			if (error) { *info = error; return; }
+			if (error) { *info = error; goto cleanup; }
 			lsub = Glu->lsub;
 		    }
 		    xlsub[jj + 1]++;
@@ -501,7 +501,7 @@ sgsitrf(superlu_options_t *options, SuperMatrix *A, int relax, int panel_size,
 		    if (xlusup[jj] + 1 > Glu->nzlumax) {
 			int_t nzlumax = Glu->nzlumax;
 			int error = sLUMemXpand(jj, xlusup[jj], LUSUP, &nzlumax, Glu);
-			if (error) { *info = error; return; }
+			if (error) { *info = error; goto cleanup; }
 		    }
 		    xlusup[jj + 1]++;
 		    ((float *) Glu->lusup)[xlusup[jj]] = zero;
@@ -535,7 +535,7 @@ sgsitrf(superlu_options_t *options, SuperMatrix *A, int relax, int panel_size,
 					       milu, amax[jj - jcol] * tol_U,
 					       quota, &drop_sum, &nnzUj, Glu,
 					       swork2)) != 0)
-		    return;
+		    goto cleanup;
 
 		/* Reset the dropping threshold if required */
 		if (drop_rule & DROP_DYNAMIC) {
@@ -666,6 +666,14 @@ sgsitrf(superlu_options_t *options, SuperMatrix *A, int relax, int panel_size,
 
     ops[FACT] += ops[TRSV] + ops[GEMV];
     stat->expansions = --(Glu->num_expansions);
+
+ cleanup:
+    if ( *info > n ) { /* Out of memory: L and U are not formed. */
+	sLUWorkFree(iwork, swork, Glu);
+	SUPERLU_FREE (xplore);
+	SUPERLU_FREE (marker_relax);
+	sLUMemFree(fact, Glu);
+    }
 
     if ( iperm_r_allocated ) SUPERLU_FREE (iperm_r);
     SUPERLU_FREE (iperm_c);
